@@ -1,6 +1,6 @@
 """C04 — every saved file is a valid container with consistent derived fields."""
 import io, struct
-from lib.ser import Ok, Err, res, Raw
+from lib.ser import Ok, Err, res, Raw, Opt
 from lib import corpus, sfntspec, glyfspec
 from vcheck import Corr, Sweep
 
@@ -78,7 +78,36 @@ def correspondences(tier, rng):
                 if len(d) < 12 and got != bytes(d): P.append("a head table without room for checkSumAdjustment was modified")
             elif got != bytes(d): P.append("table %r content changed" % bytes(t))
         return "; ".join(P) if P else None
-    out.append(Corr("write_sfnt", cases, impl_write, oracle=oracle_write))
+    # the order in which TTFont.save compiles the tables (TTFont._writeTable with the declared dependencies)
+    from fontTools.ttLib import TTFont as _TTFont
+    from fontTools.ttLib.tables.DefaultTable import DefaultTable as _DT
+    POOL = ["head", "hhea", "hmtx", "vhea", "vmtx", "maxp", "loca", "glyf", "OS/2", "name", "ltag", "gvar", "fvar", "avar", "cvar", "cvt ", "CFF ", "EBLC", "EBDT", "EBSC", "post", "zzzz"]
+    ocases = []
+    for _ in range(N(tier, 300, 4000)):
+        pres = rng.sample(POOL, rng.randint(1, len(POOL)))
+        ocases.append(sorted(pres))
+    def impl_order(pres):
+        def go():
+            f = _TTFont(); order = []
+            for t in pres:
+                d = _DT(t); d.data = b"\0\0\0\0"; f.tables[t] = d      # raw tables: compiling them has no side effects
+            orig = _TTFont.getTableData
+            def spy(self, tag, _o=order):
+                _o.append(str(tag)); return orig(self, tag)
+            _TTFont.getTableData = spy
+            try: f.save(io.BytesIO(), reorderTables=None)
+            finally: _TTFont.getTableData = orig
+            return Opt([[ord(c) for c in t] for t in order], some=True)
+        return res(go)
+    def enc_order(pres):
+        f = _TTFont()
+        for t in pres:
+            d = _DT(t); d.data = b"\0\0\0\0"; f.tables[t] = d
+        tags = [t for t in f.keys() if t != "GlyphOrder"]          # the order save walks the tables in (TTFont.keys: sortedTagList)
+        return ([[ord(c) for c in t] for t in pres], [[ord(c) for c in t] for t in tags])
+    out_order = Corr("save_order", ocases, impl_order, enc=enc_order,
+                     compare=lambda x, i_, m_: bool(i_) and i_[0] == 0 and list(i_[1:]) == list(m_))
+    out.append(Corr("write_sfnt", cases, impl_write, oracle=oracle_write)); out.append(out_order)
     # WOFF2 transformed glyf: the point triplets of a simple glyph (all delta classes and their boundaries)
     import array
     from fontTools.ttLib.woff2 import WOFF2GlyfTable
